@@ -808,6 +808,8 @@ def close_outside_band(a, b, dist, cond, rtol=RTOL):
     tolerance grows with the conditioning of the triangle"""
     a = np.atleast_1d(np.asarray(a, dtype=float))
     b = np.atleast_1d(np.asarray(b, dtype=float))
+    if a.shape != b.shape:
+        return (-1, a.shape, b.shape)
     for i in range(a.size):
         near = (not np.isnan(dist[i])) and abs(dist[i]) <= BAND
         na, nb = np.isnan(a[i]), np.isnan(b[i])
@@ -894,7 +896,17 @@ def chk_batch(sc, rng):
     n = sc.x.size
     if n == 0:
         return None
-    tol = 1e-12
+    tol = 1e-11
+    # on the hull itself (within rounding) qhull's answer depends on where
+    # its directed search starts, i.e. on the preceding event: NaN-ness is
+    # compared outside the band only
+    # an event on a common edge of two (possibly thin) triangles may be
+    # evaluated in either: the tolerance follows the conditioning
+    _, dist, cond, _ = sc.ref()
+
+    def same(a, b, tol, idx=None):          # noqa: F811 (band-aware)
+        ii = np.arange(n) if idx is None else np.array(idx, dtype=int)
+        return close_outside_band(a, b, dist[ii], cond[ii], rtol=tol)
     for trial in range(4):
         k = rng.randint(1, n)
         idx = [rng.randrange(n) for _ in range(k)]      # with repetitions
@@ -904,7 +916,7 @@ def chk_batch(sc, rng):
             idx = [rng.randrange(n)]
         sub = np.atleast_1d(sc.f(x=sc.x[idx], d=sc.d[idx],
                                  med=sc.sub_med(idx)))
-        r = same(E[idx], sub, tol)
+        r = same(E[idx], sub, tol, idx)
         if r:
             return ("event %d of the batch (x=%r, deform=%r) has emodulus %r "
                     "in the full batch but %r in the sub-batch with indices "
@@ -923,7 +935,7 @@ def chk_batch(sc, rng):
     if route_of(sc.med) == "scalar":
         i = rng.randrange(n)
         s0 = sc.f(x=float(sc.x[i]), d=float(sc.d[i]))
-        r = same(E[i], s0, tol)
+        r = same(E[[i]], s0, tol, [i])
         if r:
             return ("event %d alone as python floats gives %r, in the batch "
                     "%r" % (i, r[2], r[1]))
@@ -933,8 +945,8 @@ def chk_batch(sc, rng):
         return "list input differs from ndarray input: event %d: %r vs %r" % r
     x32 = sc.x.astype(np.float32)
     d32 = sc.d.astype(np.float32)
-    r = same(sc.f(x=x32.astype(float), d=d32.astype(float)),
-             sc.f(x=x32, d=d32), 0.0)
+    r = globals()["same"](sc.f(x=x32.astype(float), d=d32.astype(float)),
+                          sc.f(x=x32, d=d32), 0.0)
     if r:
         return "float32 input differs from its float64 copy: event %d: " \
                "%r vs %r" % r
